@@ -24,6 +24,10 @@ import tlegen
 
 ID = "C18"
 LEAN_TARGETS = ["PV.Props.C18"]
+# T-D: functions translated from the source by harness/pytrans.py, proved equal to the model (DESIGN section 0)
+EQUIV = {"PV.Equiv.TranslatedOrbitNum": ["run_solo", "modelCall_solo", "get_orbit_number_float_eq", "get_orbit_number_int_eq",
+                                         "modelCall_callOn", "get_orbit_number_float_answer"],
+         "PV.Equiv.TranslatedPropagate": ["propagate_eq", "propagate_modes", "propagate_no_history"]}
 RULE = ("per near-earth TLE (repo test TLEs + generated LEO sets, epoch at and off the ascending node): (1) histories of "
         "<= 10 mixed queries drawn with repetition from a per-TLE pool (get_position scalar/array, normalised or not; "
         "get_lonlatalt; get_observer_look scalar/array; get_orbit_number incl. tbus_style/as_float; get_last_an_time; "
